@@ -365,7 +365,25 @@ func plRun(job plJob) (res plResult) {
 	}
 	defer func() { verifHook = nil }()
 
-	// stand-alone payloads (the oracle's reference: the same real decoder + encoder on a private copy)
+	// stand-alone payloads (the oracle's reference: the same real decoder + encoder on a private copy).  Messages are
+	// recognised by their payload: of several datagrams that give the same payload (a datagram and the same datagram cut
+	// inside its trailing padding) only the first is kept - except in a replayed schedule, whose datagrams are the model's
+	if len(job.Scheds) == 0 {
+		seen := map[string]bool{}
+		var keep []plDgram
+		for _, d := range job.Data {
+			e := ad.alone(job.Templates, d)
+			if e != nil {
+				k := string(plNorm(job.Proto, e))
+				if seen[k] {
+					continue
+				}
+				seen[k] = true
+			}
+			keep = append(keep, d)
+		}
+		job.Data = keep
+	}
 	for _, d := range job.Data {
 		res.Expected = append(res.Expected, ad.alone(job.Templates, d))
 		res.Class = append(res.Class, ad.class(job.Templates, d))
